@@ -223,6 +223,25 @@ def _lexer(ck, p):
         some_of_call = any(o[0] == "agg" and o[2].endswith(":Some") and any(x[0] == "call" and x[1] == bi or (x[0] == "field" and x[1][0] == "call" and x[1][1] == bi) for ops in o[3] for x in ops) for o in ret)
         ok = from_table and on_source and some_of_call
         detail = "the pointer comes from iterating the table=%s; it is applied to the `source` parameter=%s; Some(result) is returned=%s" % (from_table, on_source, some_of_call)
+    if not ptr_calls:
+        # the same search written with an iterator adaptor: table.into_iter().find_map(|lexer| lexer(source))
+        fm = [(bi, t) for bi, t in f.calls() if method(t) in ("find_map", "filter_map", "map_while", "flat_map")]
+        for bi, t in fm:
+            for x in pv.trace_operand(t["args"][-1]):
+                if x[0] == "agg" and x[1] == "closure" and x[2] in p.fns:
+                    c = p.fns[x[2]]
+                    cptr = [(cb, ct) for cb, ct in c.calls() if "ptr" in ct["f"]]
+                    if len(cptr) == 1:
+                        cpv = Prov(c)
+                        callee_is_item = any(o[0] == "arg" and o[1] == 2 for o in flatten(cpv.trace_operand({"c": cptr[0][1]["f"]["ptr"]})))
+                        on_source = any(o[0] in ("upvar",) for o in flatten(cpv.trace_operand(cptr[0][1]["args"][0]))) or any(o == ("arg", 1) for o in flatten(cpv.trace_operand(cptr[0][1]["args"][0])))
+                        returns = any(o[0] == "call" and o[1] == bi for o in flatten(pv.trace_local(0)))
+                        first = method(t) == "find_map"
+                        ok = callee_is_item and on_source and returns and first
+                        detail = "table.find_map(|lexer| lexer(source)): the pointer is the iterated item=%s; applied to the captured source=%s; the first Some is returned=%s" % (callee_is_item, on_source, returns and first)
+        if not fm:
+            ck.undecided(rule, "lex_token:first-match", f.span, "neither a call through a function pointer in lex_token nor a find_map over the table: form not recognised")
+            return
     ck.decide(rule, "lex_token:first-match", ok, f.span, detail)
     ck.extra["lexer_contract_proved"] = all(o["verdict"] == "PROVED" for o in ck.obs if o["rule"] == rule)
 
